@@ -26,7 +26,7 @@
 //   `Inverter for BoxedMontyFormInverter`, `PrecomputeInverter for BoxedMontyParams / Odd<BoxedUint>`, `PrecomputeInverterWithAdjuster`,
 //   `MontyMultiplier::mul_assign`; `Deref for Odd<T>`, `PartialEq/PartialOrd<Odd<BoxedUint>> for BoxedUint`, `NonZero<BoxedUint>::widen`.
 // stub (ASSUMED): `From<&BoxedMontyParams> for BoxedMontyMultiplier` (one-line call of `new`; a trait-impl method cannot carry the `requires`),
-//   BoxedUint::{one, max, square, widen}, BoxedSafeGcdInverter::new + `Inverter for BoxedSafeGcdInverter::invert` (Bernstein-Yang, abstract model
+//   BoxedUint::widen (LIMITATION 1 of l8_boxed_methods.rs; BoxedUint::{one, max, square} are bodies), BoxedSafeGcdInverter::new + `Inverter for BoxedSafeGcdInverter::invert` (Bernstein-Yang, abstract model
 //   m()/adj()/nl(), contract = the one PROVED for the fixed-width inverter), lincomb_boxed_monty_form (contract = the one PROVED for fixed widths).
 //   Library: `Arc::from`, `Arc::as_ref`, `Arc::borrow`, `Arc::eq`, derived `Clone` / `PartialEq` of BoxedMontyParams (hand-written models),
 //   and ONE axiom `axiom_arc_partial_eq_model` (`==` on `&Arc<BoxedMontyParams>`; see there).
@@ -56,7 +56,7 @@ use crate::l2_subtle::*;
 use crate::l5_monty::*;
 use crate::l6_montyform::{clamped_lz, lemma_to_mont, lemma_repr_zero, lemma_repr_neg, lemma_repr_half, lemma_one_cong, lemma_r2_def, lemma_r3_def, lemma_neg_inv_def};
 use crate::l7_traits::*;
-use crate::l7_boxed_slices::{almost_montgomery_mul, almost_montgomery_mul_by_one};
+use crate::l7_boxed_slices::{almost_montgomery_mul, almost_montgomery_mul_by_one, square_limbs, karatsuba_square_limbs};
 use crate::l7_boxed_div::*;
 use crate::l8_boxed_methods::*;
 use crate::l8_boxed_methods::Integer;
@@ -526,46 +526,69 @@ pub fn square_amm(&mut self, a: &BoxedUint) -> (ret__: BoxedUint)
 }
 //@@ end
 
-//@@ fn src/uint/boxed.rs | impl BoxedUint | one | stub | props C15 C11
+//@@ fn src/uint/boxed.rs | impl BoxedUint | one | body | props C15 C11
 impl BoxedUint {
-#[verifier::external_body]
 pub fn one() -> (ret__: Self)
 //@+
-    // ASSUMED (`vec![Limb::ONE; 1].into()`): the value 1 in one limb
     ensures ret__.nl() == 1, ret__.v() == 1
 //@-
 {
-    unimplemented!()
-}
+//@+
+    proof {
+        assert forall|s: Seq<Limb>| s.len() == 1 implies #[trigger] val(s, s.len()) == s[0].0 as int by { lemma_val_single(s, 1); }
+    }
+//@-
+        Self {
+            limbs: vec![Limb::ONE; 1].into(),
+        }
+    }
 }
 //@@ end
-//@@ fn src/uint/boxed.rs | impl BoxedUint | max | stub | props C15 C11
+//@@ fn src/uint/boxed.rs | impl BoxedUint | max | body | props C15 C11
 impl BoxedUint {
-#[verifier::external_body]
 pub fn max(at_least_bits_precision: u32) -> (ret__: Self)
 //@+
-    // ASSUMED (`vec![Limb::MAX; limbs_for_precision(bits)].into()`; `From<Vec<Limb>>` pushes a ZERO limb onto an empty vector)
     ensures ret__.nl() == nlimbs_for(at_least_bits_precision),
         at_least_bits_precision > 0 ==> ret__.v() == bp(ret__.nl()) - 1,
         at_least_bits_precision == 0 ==> ret__.v() == 0
 //@-
 {
-    unimplemented!()
-}
+//@+
+    proof {
+        assert forall|s: Seq<Limb>| (forall|k: int| 0 <= k < s.len() ==> s[k].0 == u64::MAX) implies #[trigger] val(s, s.len()) == bp(s.len()) - 1 by { lemma_val_all_max(s, s.len()); }
+        assert forall|s: Seq<Limb>| s.len() == 1 && s[0].0 == 0 implies #[trigger] val(s, s.len()) == 0 by { lemma_val_single(s, 1); }
+    }
+//@-
+        vec![Limb::MAX; Self::limbs_for_precision(at_least_bits_precision)].into()
+    }
 }
 //@@ end
-//@@ fn src/uint/boxed/mul.rs | impl BoxedUint | square | stub | props C03 C15 C11
+//@@ fn src/uint/boxed/mul.rs | impl BoxedUint | square | body | props C03 C15 C11
 impl BoxedUint {
-#[verifier::external_body]
 pub fn square(&self) -> (ret__: Self)
 //@+
-    // ASSUMED (`vec!` + the slice functions square_limbs / karatsuba_square_limbs proved in l7_boxed_slices.rs): 2n limbs, exact square
     requires 1 <= self.nl() < 0x200_0000
     ensures ret__.nl() == 2 * self.nl(), ret__.v() == self.v() * self.v()
 //@-
 {
-    unimplemented!()
-}
+        let size = self.nlimbs() * 2;
+        if self.nlimbs() >= KARATSUBA_MIN_STARTING_LIMBS * 2 {
+            let mut limbs = vec![Limb::ZERO; size * 2];
+            let (out, scratch) = limbs.as_mut_slice().split_at_mut(size);
+            karatsuba_square_limbs(&self.limbs, out, scratch);
+//@+
+    let ghost ov = out@;
+//@-
+            limbs.truncate(size);
+//@+
+    proof { assert(limbs@ =~= ov); }
+//@-
+            return limbs.into();
+        }
+        let mut limbs = vec![Limb::ZERO; size];
+        square_limbs(&self.limbs, &mut limbs);
+        limbs.into()
+    }
 }
 //@@ end
 //@@ fn src/uint/boxed.rs | impl BoxedUint | widen | stub | props C15 C11
